@@ -67,12 +67,14 @@ TNew ==
 
 TSetTime ==
   /\ e.op = "st"
+  \* an honoured change of the time starts a new segment: what is left of the distance to the (held)
+  \* input is now covered at the new rate; the coverage / settling statements apply to it from here on
   /\ IF Honoured(e.us)
        THEN /\ cached' = e.us
             /\ nEff' = SamplesPer(IF e.us > TSlow THEN TSlow ELSE e.us)
-            /\ quiet' = FALSE
-       ELSE UNCHANGED <<cached, nEff, quiet>>
-  /\ UNCHANGED <<eff, pole, y, x, lo, hi, fs, from, k>>
+            /\ quiet' = TRUE /\ from' = y /\ k' = 0
+       ELSE UNCHANGED <<cached, nEff, quiet, from, k>>
+  /\ UNCHANGED <<eff, pole, y, x, lo, hi, fs>>
   /\ Advance({})
 
 TProcess ==
@@ -113,7 +115,10 @@ TStretch ==
                      THEN {<<"C13", "overshoot">>} ELSE {})
              \cup CoverageTags(k', e.yq))
 
-TPanic == /\ e.op = "panic" /\ UNCHANGED <<gVars, fs, nEff, from, k, quiet>> /\ Advance({<<"C17", "panic">>})
+\* a panic is an event no action accepts: C17, and the property about the call that panicked
+TPanic == /\ e.op = "panic" /\ UNCHANGED <<gVars, fs, nEff, from, k, quiet>>
+          /\ Advance({<<"C17", "panic">>} \cup (IF Has(e, "where") /\ e.where = "process" THEN {<<"C13", "panic-in-process">>}
+                                                ELSE {<<"C14", "panic-in-set-time">>, <<"C13", "panic-in-set-time">>}))
 
 TNext == l <= NRec /\ (TMeta \/ TNew \/ TSetTime \/ TProcess \/ TStretch \/ TPanic)
 TInit == /\ GInit /\ l = 1 /\ dead = {} /\ fs = 1000 /\ nEff = 2 /\ from = 0 /\ k = 0 /\ quiet = FALSE
